@@ -232,6 +232,36 @@ def bounded_worker(tier):
                         bad_seq.append(f"order {order}: after creating synapse #{step} ({TYPES[t_]}), edges.loc[{r_}, {k_}] = {net.edges.loc[r_, k_]}, assigned {v_}")
                 out["evals"] += 1
             cases.add(("interleaved", str(order)))
+        # synapse-type views used BETWEEN connects: the view of a type requested after further synapses of that type were created
+        # denotes all of them (seeded change C09_e: indices of a type cached at its first use)
+        bad_hist = []
+        for order in ([0, 1, 2, 3, 4, 5], [4, 2, 0, 5, 3, 1]):
+            net = template()
+            kinds = []
+            for step, e in enumerate(order):
+                p_, q_, t_ = w[e]
+                connect(net.select(nodes=[p_]), net.select(nodes=[q_]), getattr(SY, TYPES[t_])())
+                kinds.append(t_)
+                key = {"I": "IonotropicSynapse_gS", "T": "TestSynapse_gC", "R": "TanhRateSynapse_slope"}[t_]
+                val = 0.01 * (step + 1)
+                before = net.edges.copy()
+                tv = getattr(net, TYPES[t_])              # the type view, requested again after every connect
+                rows_t = [r for r, k_ in enumerate(kinds) if k_ == t_]
+                got_rows = sorted(int(x) for x in tv._edges_in_view)
+                if got_rows != rows_t:
+                    bad_hist.append(f"order {order}: after connect #{step} net.{TYPES[t_]} addresses synapses {got_rows}, the {TYPES[t_]} synapses are {rows_t}")
+                    continue
+                tv.set(key, val)
+                changed = sorted(int(i) for i in net.edges.index if not net.edges.loc[i].equals(before.loc[i]))
+                if changed != rows_t or not all(net.edges.loc[r, key] == val for r in rows_t):
+                    bad_hist.append(f"order {order}: after connect #{step} net.{TYPES[t_]}.set({key}) changed rows {changed}, the {TYPES[t_]} synapses are {rows_t}")
+                last = getattr(net, TYPES[t_]).edge(len(rows_t) - 1)
+                if sorted(int(x) for x in last._edges_in_view) != [rows_t[-1]]:
+                    bad_hist.append(f"order {order}: after connect #{step} net.{TYPES[t_]}.edge({len(rows_t) - 1}) addresses {sorted(int(x) for x in last._edges_in_view)}, the newest {TYPES[t_]} synapse is row {rows_t[-1]}")
+                out["evals"] += 1
+            cases.add(("type views between connects", str(order)))
+        out["results"].append(_res("synapse-type views requested between connects address all synapses of the type created so far; set through them reaches exactly those rows [bounded: 2 creation orders x 6 synapses of 3 types]",
+                                   not bad_hist, " | ".join(bad_hist[:3]), backend="bounded-evaluation"))
         out["results"].append(_res("connect after set: creating a further synapse leaves the values assigned to existing synapses untouched [bounded: 2 creation orders x 6 synapses of 3 types, parameter and state assigned after every connect]",
                                    not bad_seq, " | ".join(bad_seq[:3]), backend="bounded-evaluation"))
         out["distinct"] = len(cases)
